@@ -52,7 +52,7 @@ def _spawn(scn):
   return pid, rfd
 
 
-def run_batch(scenarios, jobs=None, wall_limit=60, on_result=None, deadline=None):
+def run_batch(scenarios, jobs=None, wall_limit=120, on_result=None, deadline=None):
   """Run every scenario (in order of submission, bounded parallelism).
   Returns a list of results aligned with `scenarios`; a child that crashed,
   was killed or produced no JSON yields {'ok': False, 'error': ...}.
